@@ -213,6 +213,7 @@ theorem parseField_rel (d : Dialect) : ∀ (t : ATy) (p : FP) (bs : Bytes),
   | .str, p, bs => by simp only [parseField]; exact fieldShell_rel d _ p bs _ _ fun _ _ _ _ => parseLeaf_rel d _ p _ _ _ _
   | .rawValue, p, bs => by simp only [parseField]; exact fieldShell_rel d _ p bs _ _ fun _ _ _ _ => parseLeaf_rel d _ p _ _ _ _
   | .flag, p, bs => by simp only [parseField]; exact fieldShell_rel d _ p bs _ _ fun _ _ _ _ => parseLeaf_rel d _ p _ _ _ _
+  | .time, p, bs => by simp only [parseField]; exact fieldShell_rel d _ p bs _ _ fun _ _ _ _ => parseLeaf_rel d _ p _ _ _ _
 theorem parseFields_rel (d : Dialect) : ∀ (fs : AFields) (bs : Bytes),
     Rel (parseFields d .strict fs bs) (parseFields d .lax fs bs)
   | .nil, bs => by simp only [parseFields]; rfl
